@@ -25,7 +25,7 @@ func (fe *FnExec) fail(format string, a ...interface{}) {
 func verifyFunction(p *Program, fn *ssa.Function, c *FuncContract, emit func(*Obligation), maxPaths int) (fe *FnExec) {
 	fe = &FnExec{P: p, Fn: fn, C: c, Mode: c.Mode, preludeSet: map[string]bool{}, initHeap: map[string]Term{},
 		emit: emit, maxPaths: maxPaths, strLits: map[string]Term{}, typeCodes: map[string]int{},
-		safetyOrd: map[ssa.Instruction]int{}, callOrd: map[ssa.Instruction]int{}}
+		safetyOrd: map[ssa.Instruction]int{}, callOrd: map[ssa.Instruction]int{}, usedGhosts: map[int]bool{}}
 	defer func() {
 		if r := recover(); r != nil {
 			if ee, ok := r.(execError); ok {
@@ -113,6 +113,14 @@ func verifyFunction(p *Program, fn *ssa.Function, c *FuncContract, emit func(*Ob
 	fe.runBlock(st, fn.Blocks[0])
 	if fe.retPaths == 0 && len(fe.errs) == 0 {
 		fe.errorf("no path of %s reaches a return", fn)
+	}
+	// every call-site clause of the contract must have been exercised on some path
+	if len(fe.errs) == 0 {
+		for i, cg := range c.CallGhosts {
+			if !fe.usedGhosts[i] {
+				fe.errorf("call-site clause 'call %s#%d %s' was never reached on any path", cg.Callee, cg.Ordinal, cg.Kind)
+			}
+		}
 	}
 	return fe
 }
@@ -1125,6 +1133,15 @@ func (fe *FnExec) step(st *State, in ssa.Instruction) {
 			st.vals[x] = IfaceV{code, App(SInt, name, fl...)}
 		case IfaceV:
 			st.vals[x] = vv
+		case AddrV:
+			if vv.Kind == "local" && fe.Mode == "permissive" {
+				// the address of a local cell escapes into an interface: opaque reference; the
+				// cell is forgotten at every un-contracted call from now on
+				st.escaped = append(st.escaped, vv.Local)
+				st.vals[x] = IfaceV{code, st.newRef("addr")}
+			} else {
+				fe.fail("%s: address of a cell escapes into an interface (outside the strict subset)", fe.pos(x.Pos()))
+			}
 		default:
 			fe.fail("%s: MakeInterface of %T", fe.pos(x.Pos()), v)
 		}
